@@ -393,9 +393,13 @@ func (r *Run) Finish(rule, evalKey, distinctSet string, minDistinct int) {
 	viol := r.violations
 	r.mu.Unlock()
 
-	os.MkdirAll(filepath.Join(Root, "evidence"), 0o755)
+	evdir := filepath.Join(Root, "evidence")
+	if d := os.Getenv("VERIF_EVIDENCE_DIR"); d != "" { // trial runs against a scratch checkout (VERIF_REPO) keep evidence/ untouched
+		evdir = d
+	}
+	os.MkdirAll(evdir, 0o755)
 	b, _ := json.MarshalIndent(ev, "", " ")
-	os.WriteFile(filepath.Join(Root, "evidence", r.ID+".json"), b, 0o644)
+	os.WriteFile(filepath.Join(evdir, r.ID+".json"), b, 0o644)
 
 	keys := make([]string, 0, len(cnt))
 	for k := range cnt {
